@@ -157,3 +157,8 @@ Proof.
         apply lit_matcher_inv in E as (rs' & -> & Hp & ->). exists rs'.
         destruct Hmt as [H|[H|[H|H]]]; try discriminate H. injection H as <-. cbn. intuition auto.
 Qed.
+
+(* the three predicate call sites hand the text to the compiled pattern and return its verdict unchanged; the loader
+   compiles Text.Matches with textmatch.Compile and the File() predicates with regexp.Compile and passes the result on *)
+Lemma match_sites_hold : forallb snd gen_match_sites = true /\ (7 <= List.length gen_match_sites)%nat.
+Proof. split; [vm_compute; reflexivity|vm_compute; lia]. Qed.
